@@ -197,12 +197,21 @@ func c20History(r *report.R, id string) {
 				return
 			}
 		}
+		earlierDiff := false
 		for i := range want.CheckTx {
 			if i >= len(got.CheckTx) || got.CheckTx[i] != want.CheckTx[i] {
 				g := ""
 				if i < len(got.CheckTx) {
 					g = got.CheckTx[i]
 				}
+				// the battery submits the transactions of the next block one after the other to the same
+				// check state: once one of them was answered differently (reported below), a later one
+				// of the same sender fails on the nonce / sequence the earlier one would have advanced
+				if earlierDiff && (strings.Contains(g, "invalid nonce") || strings.Contains(g, "invalid sequence") || strings.Contains(g, "account sequence mismatch")) {
+					r.Count("checktx_differences_following_from_an_earlier_one", 1)
+					continue
+				}
+				earlierDiff = true
 				kind := "cosmos"
 				if isEthTx(nextTxs(height)[i]) {
 					kind = "ethereum"
